@@ -20,16 +20,36 @@ rs::thread_local! {
     static COUNTER: RefCell<Option<rs::sync::Arc<loom::sync::atomic::AtomicUsize>>> = RefCell::new(None);
     static SCRIPT: RefCell<Vec<Option<Vec<u8>>>> = RefCell::new(Vec::new());
     static FAILURES: rs::cell::Cell<usize> = rs::cell::Cell::new(0);
+    static CURSORS: RefCell<rs::collections::HashMap<String, (usize, usize)>> = RefCell::new(rs::collections::HashMap::new());
 }
 extern "C" { fn __errno_location() -> *mut i32; fn memfd_create(name: *const u8, flags: u32) -> i32; fn dup(fd: i32) -> i32; fn dup2(a: i32, b: i32) -> i32; fn ftruncate(fd: i32, len: i64) -> i32; fn lseek(fd: i32, off: i64, whence: i32) -> i64; fn pread(fd: i32, buf: *mut u8, n: usize, off: i64) -> isize; }
+/// Entropy is scripted PER MNEMONIC, not per request: a thread that starts gathering entropy takes the next answer of
+/// the script (one fetch-and-add on a loom atomic = one scheduling point, so which worker gets which answer is a
+/// scheduling choice) and is served from that 16-byte answer until it is used up, however many requests it makes.
 /// # Safety: called through the subject's FFI declaration with a valid buffer
 #[no_mangle]
 pub unsafe extern "C" fn getentropy(buf: *mut u8, len: usize) -> i32 {
-    let ctr = COUNTER.with(|c| c.borrow().clone()); // take the handle first: the borrow must not be held across a scheduling point
-    let idx = ctr.map(|a| a.fetch_add(1, loom::sync::atomic::Ordering::SeqCst)); // a scheduling point
-    let ans = match idx { Some(i) => SCRIPT.with(|s| s.borrow().get(i).cloned().flatten()), None => None };
-    if ans.is_none() { FAILURES.with(|f| f.set(f.get() + 1)); }
-    match ans { Some(b) => { for i in 0..len { *buf.add(i) = b[i % b.len()]; } 0 } None => { *__errno_location() = 5; -1 } }
+    let ctr = COUNTER.with(|c| c.borrow().clone()); // take the handle first: no RefCell borrow may be held across a scheduling point
+    let Some(ctr) = ctr else { *__errno_location() = 5; return -1; };
+    let me = format!("{:?}", loom::thread::current().id());
+    let mut written = 0usize;
+    while written < len {
+        let cur = CURSORS.with(|c| c.borrow().get(&me).cloned());
+        let (idx, off) = match cur { Some((i, o)) if o < 16 => (i, o), _ => { let i = ctr.fetch_add(1, loom::sync::atomic::Ordering::SeqCst); (i, 0) } };
+        match SCRIPT.with(|s| s.borrow().get(idx).cloned().flatten()) {
+            None => { CURSORS.with(|c| c.borrow_mut().insert(me.clone(), (idx, 16))); FAILURES.with(|f| f.set(f.get() + 1)); *__errno_location() = 5; return -1; }
+            Some(b) => { let n = (16 - off).min(len - written); for k in 0..n { *buf.add(written + k) = b[off + k]; } written += n; CURSORS.with(|c| c.borrow_mut().insert(me.clone(), (idx, off + n))); }
+        }
+    }
+    0
+}
+extern "C" { fn syscall(num: i64, ...) -> i64; }
+/// getrandom(2) through libc is the same source (flags 0); hash-map seeding of the runtime (GRND_NONBLOCK / GRND_INSECURE) goes to the kernel
+/// # Safety: called with a valid buffer
+#[no_mangle]
+pub unsafe extern "C" fn getrandom(buf: *mut u8, len: usize, flags: u32) -> isize {
+    if flags & 0x5 != 0 || COUNTER.with(|c| c.borrow().is_none()) { return syscall(318, buf, len, flags) as isize; }
+    if getentropy(buf, len) == 0 { len as isize } else { -1 }
 }
 // ---- stdout capture at file-descriptor level (println! of the subject goes to fd 1) --------------------------------
 static mut CAP_FD: i32 = -1;
@@ -105,7 +125,7 @@ fn explore(sc: &Scenario, result_path: &str, checkpoint: &str, replay: bool) {
         SCHEDULES.fetch_add(1, Ordering::Relaxed);
         COUNTER.with(|c| *c.borrow_mut() = Some(rs::sync::Arc::new(loom::sync::atomic::AtomicUsize::new(0))));
         SCRIPT.with(|s| *s.borrow_mut() = p2.script.clone());
-        std::sync::mpsc::SEND_LOG.with(|l| l.borrow_mut().clear()); FAILURES.with(|f| f.set(0));
+        std::sync::mpsc::SEND_LOG.with(|l| l.borrow_mut().clear()); FAILURES.with(|f| f.set(0)); CURSORS.with(|c| c.borrow_mut().clear());
         std::sync::mpsc::SEND_HOOK.with(|h| h.set(Some(|m: &dyn rs::any::Any| m.downcast_ref::<anyhow::Result<hdwallet::mnemonic::Mnemonic>>().map(|r| match r { Ok(m) => format!("ok:{m}"), Err(_) => "err".to_string() }))));
         let r = cmd::new::run(options(&sc2));
         let out = capture_take();
